@@ -29,11 +29,11 @@ func (p *P) checkpointWriter(rule string, fn *ssa.Function) {
 			}
 			pb := b.Preds[0]
 			iff, isIf := pb.Instrs[len(pb.Instrs)-1].(*ssa.If)
-			if !isIf || pb.Succs[0] != b {
+			if !isIf {
 				continue
 			}
 			cmp, isCmp := iff.Cond.(*ssa.BinOp)
-			if !isCmp || cmp.Op != token.EQL {
+			if !isCmp || !(cmp.Op == token.EQL && pb.Succs[0] == b || cmp.Op == token.NEQ && pb.Succs[1] == b) {
 				continue
 			}
 			rem, isRem := cmp.X.(*ssa.BinOp)
